@@ -334,8 +334,9 @@ impl Interpreter {
                 state.stack.push_bigint(a + b)?;
             }
             OpCodes::OP_SUB => {
-                let a = state.stack.pop_bigint()?;
+                // a b OP_SUB: b is the top item
                 let b = state.stack.pop_bigint()?;
+                let a = state.stack.pop_bigint()?;
 
                 state.stack.push_bigint(a - b)?;
             }
@@ -346,14 +347,16 @@ impl Interpreter {
                 state.stack.push_bigint(a * b)?;
             }
             OpCodes::OP_DIV => {
-                let a = state.stack.pop_bigint()?;
+                // a b OP_DIV: b is the top item
                 let b = state.stack.pop_bigint()?;
+                let a = state.stack.pop_bigint()?;
 
                 state.stack.push_bigint(a / b)?;
             }
             OpCodes::OP_MOD => {
-                let a = state.stack.pop_bigint()?;
+                // a b OP_MOD: b is the top item
                 let b = state.stack.pop_bigint()?;
+                let a = state.stack.pop_bigint()?;
 
                 state.stack.push_bigint(a % b)?;
             }
@@ -400,26 +403,30 @@ impl Interpreter {
                 state.stack.push_bool(a != b)?;
             }
             OpCodes::OP_LESSTHAN => {
-                let a = state.stack.pop_bigint()?;
+                // a b OP_LESSTHAN: b is the top item
                 let b = state.stack.pop_bigint()?;
+                let a = state.stack.pop_bigint()?;
 
                 state.stack.push_bool(a < b)?;
             }
             OpCodes::OP_LESSTHANOREQUAL => {
-                let a = state.stack.pop_bigint()?;
+                // a b OP_LESSTHANOREQUAL: b is the top item
                 let b = state.stack.pop_bigint()?;
+                let a = state.stack.pop_bigint()?;
 
                 state.stack.push_bool(a <= b)?;
             }
             OpCodes::OP_GREATERTHAN => {
-                let a = state.stack.pop_bigint()?;
+                // a b OP_GREATERTHAN: b is the top item
                 let b = state.stack.pop_bigint()?;
+                let a = state.stack.pop_bigint()?;
 
                 state.stack.push_bool(a > b)?;
             }
             OpCodes::OP_GREATERTHANOREQUAL => {
-                let a = state.stack.pop_bigint()?;
+                // a b OP_GREATERTHANOREQUAL: b is the top item
                 let b = state.stack.pop_bigint()?;
+                let a = state.stack.pop_bigint()?;
 
                 state.stack.push_bool(a >= b)?;
             }
@@ -446,11 +453,12 @@ impl Interpreter {
                 state.stack.push_bigint(biggest)?;
             }
             OpCodes::OP_WITHIN => {
-                let x = state.stack.pop_bigint()?;
-                let min = state.stack.pop_bigint()?;
+                // x min max OP_WITHIN: max is the top item; the upper bound is exclusive
                 let max = state.stack.pop_bigint()?;
+                let min = state.stack.pop_bigint()?;
+                let x = state.stack.pop_bigint()?;
 
-                state.stack.push_bool(x >= min && x <= max)?;
+                state.stack.push_bool(x >= min && x < max)?;
             }
             OpCodes::OP_NUM2BIN => {
                 let length = state.stack.pop_number()?;
